@@ -65,6 +65,9 @@ ARRAYS = [
     # block-sparse-row assembly
     ("$r.argsort()", "(argsort {r})"),
     ("np.where($r == $i)", "(npWhereEq {r} {i})"),
+    ("$x.size > 0", "(!((List.length {x}) == (0)))"),        # a size is never negative: the same test as `not (size == 0)`
+    ("$x.size != 0", "(!((List.length {x}) == (0)))"),
+    ("$x.size >= 1", "(!((List.length {x}) == (0)))"),
     ("$x.size", "(List.length {x})"),
     ("bsr_matrix(($b, $c, $i), shape=($n, $m), dtype=$d)", "(mkBsr {b} {c} {i})"),
     ("$x not in $s", "(!(List.contains {s} {x}))"),
@@ -83,7 +86,16 @@ ARRAY_STMT = [
 UNWRAP = (".error err", ".error err", ".ok {x}")
 
 
+def module_helpers():
+    """every function defined at the top level of menpo/model/gmrf.py: a call of one of them that no rule of the vocabulary
+    knows is inlined at its call site (a helper that a clean-up extracted is just more text of its caller)"""
+    import inspect
+    from menpo.model import gmrf as G
+    return {n: f for n, f in inspect.getmembers(G, inspect.isfunction) if getattr(f, "__module__", None) == G.__name__}
+
+
 def rules(extra_expr=(), stmt=(), names=None, ret=".ok ({e})", raise_=".error .valueError", **kw):
+    kw.setdefault("helpers", module_helpers())
     return P.Rules2T(expr=list(extra_expr) + CONSTS + ARRAYS, stmt=list(stmt) + ARRAY_STMT, names=names or {}, ret=ret,
                      raise_=raise_, unwrap=UNWRAP, **kw)
 
